@@ -110,6 +110,9 @@ class Session:
                     attrs["pos"] = [float(op["pos"])] * (c.ndim - 1)
             if op.get("score") is not None:
                 attrs["score"] = op["score"]
+            for ks, v in (op.get("rp_attrs") or {}).items():
+                # caller-supplied values for annotator-managed features (to be overridden)
+                attrs[c.keyname[int(ks)]] = [float(v)] * (c.ndim - 1) if int(ks) == F.K_POS else float(v)
             px = c.idx_tuple(op["pixels"]) if op.get("pixels") else None
             UserAddNode(t, op["id"], attrs, pixels=px, force=bool(op["force"]))
         elif k == "delnode":
@@ -179,6 +182,8 @@ def encode_op(case: F.Case, op: dict) -> str:
                 other[pk] = op["pos"]
         if op.get("score") is not None:
             other[F.K_SCORE] = op["score"]
+        for ks, v in (op.get("rp_attrs") or {}).items():
+            other[int(ks)] = v
         px = op.get("pixels")
         pxs = "-" if not px else f"{len(px)} " + " ".join(map(str, px))
         return (f"S addnode {op['id']} {o(op.get('time'))} {o(op.get('tid'))} {o(op.get('lin'))} "
@@ -371,6 +376,16 @@ def lookup_problems(tracks, T: int) -> list[str]:
         out.append(f"fresh:next lineage id {tracks.get_next_lineage_id()} is in use")
     # queries vs scan, every track id present (+2 absent) x every time point
     absent = [i for i in range(1, 60) if i not in used_t][:2]
+    # presence query first: get_track_neighbors re-sorts the lookup list it reads, which would
+    # hide an order-dependent presence query
+    for tid in list(by_tid) + absent:
+        if tid is None:
+            continue
+        members = by_tid.get(tid, [])
+        for t in range(T + 2):
+            has = any(g.nodes[n]["time"] == t for n in members)
+            if bool(tracks.has_track_id_at_time(tid, t)) != has:
+                out.append(f"query:has_track_id_at_time({tid},{t}) != {has}")
     for tid in list(by_tid) + absent:
         if tid is None:
             continue
@@ -387,9 +402,6 @@ def lookup_problems(tracks, T: int) -> list[str]:
             if (None if ep is None else g.nodes[ep]["time"]) != tp or (None if es is None else g.nodes[es]["time"]) != ts \
                     or (p is not None and p not in members) or (s is not None and s not in members):
                 out.append(f"query:get_track_neighbors({tid},{t}) = {(p, s)} but a scan gives {(ep, es)}")
-            has = any(g.nodes[n]["time"] == t for n in members)
-            if bool(tracks.has_track_id_at_time(tid, t)) != has:
-                out.append(f"query:has_track_id_at_time({tid},{t}) != {has}")
     return out
 
 
@@ -500,8 +512,8 @@ PROP_KINDS = {
     "C05": ["addedge", "deledge", "addnode", "delnode", "swap", "paint", "undo", "redo"],
     "C06": ["addedge", "deledge", "addnode", "delnode", "swap", "paint", "undo", "redo", "qnb", "qhas", "qnew"],
     "C07": ["paint", "paint", "paint", "addnode", "delnode", "addedge", "deledge", "undo", "redo"],
-    "C08": ["paint", "paint", "addnode", "delnode", "addedge", "deledge", "swap", "undo", "redo", "enable"],
-    "C09": ["paint", "paint", "addnode", "delnode", "addedge", "addedge", "deledge", "swap", "undo", "redo", "enable"],
+    "C08": ["paint", "paint", "addnode", "addnode", "delnode", "addedge", "deledge", "swap", "undo", "redo", "enable", "disable"],
+    "C09": ["paint", "paint", "addnode", "delnode", "addedge", "addedge", "deledge", "swap", "undo", "redo", "enable", "disable"],
     "C10": ["enable", "enable", "disable", "disable", "paint", "addnode", "delnode", "addedge", "deledge", "updattrs", "undo", "redo"],
     "C11": ["addedge", "addedge", "addnode", "addnode", "deledge", "delnode", "swap", "paint", "updattrs", "undo", "redo"],
     "C20": ["addedge", "deledge", "addnode", "delnode", "swap", "paint", "updattrs", "undo", "undo", "redo"],
